@@ -3,15 +3,20 @@
 
     Every statement is about the definitions GENERATED on this run from
     src/WallGo/equationOfMotion.py (wallProfile, action, _updateGrid, _toWallParams,
-    the arguments of scipy.optimize.minimize, dV/dz) and src/WallGo/fields.py (Fields
-    helpers) by tools/gen_fields.py -- module GenC08.FieldGen.
+    temperatureProfileEqLHS, the arguments / method / use of the answer of
+    scipy.optimize.minimize, the relaxation step, the clipping, dV/dz), containers.py
+    (WallParams arithmetic) and fields.py (Fields helpers) by tools/gen_fields.py -- module
+    GenC08.FieldGen.  The generator also fails closed on in-place stores to translated names
+    and on comparisons / reductions / positional indices on field-axis data outside the model.
 
-    External (NOT modelled; Section variables below): the user's potential and the
-    spectral quadrature that turn a field profile into the potential part U of the action
-    ([Vint]), scipy's Nelder-Mead minimiser.  What is proved is that everything WallGo
-    itself does to the field axis commutes with the relabelling, so the objective handed
-    to the minimiser for the relabelled model is the old objective, and that moving the
-    pinned (offset = 0) field to another field is a z-translation. *)
+    External (NOT modelled; Section variables below): the user's potential, the particle
+    masses and the spectral quadrature that turn a field profile into the potential part U
+    of the action ([Vint]), scipy's Nelder-Mead minimiser, root finders, phase tracing.  What
+    is proved is that everything WallGo itself does to the field axis commutes with the
+    relabelling, so the objective handed to the minimiser for the relabelled model is the old
+    objective (and, when the pinned field stays first, the whole minimisation problem is the
+    old one), and that moving the pinned (offset = 0) field to another field is a
+    z-translation. *)
 From Coq Require Import Reals List Lra Lia Permutation Arith.
 From WG Require Import Lib.FieldSpace.
 From GenC08 Require Import FieldGen.
@@ -305,6 +310,156 @@ Proof.
     unfold clip_widths, Rdiv in *. minmax.
 Qed.
 
+(** ** 8. permutations that keep the pinned field first: the minimisation problem itself is
+    carried over EXACTLY (same box, same objective), so the minimising widths and offsets
+    are the permuted ones.  [feasible] is the box the minimiser works in (first offset 0,
+    every width in [wl,wh], every other offset in [ol,oh]); the vevs are data. *)
+Section SamePin.
+Variables Vint Vint' : (R -> list R) -> R.
+Variable T : list triple.
+Variable n : nat.
+Hypothesis Hn : (1 <= n)%nat.
+Hypothesis HT : wf_relab n T.
+Hypothesis Hpin : t_idx (nth 0 T (0%nat, 0, 0)) = 0%nat.
+Hypothesis Vcov : forall prof prof' : R -> list R,
+  (forall z, prof' z = relabel_point T (prof z)) -> Vint' prof' = Vint prof.
+Variables wl wh ol oh : R.
+
+Definition feasible (fs : list wfield) : Prop :=
+  length fs = n /\ offset (nth 0 fs wf0) = 0 /\
+  (forall j, (j < n)%nat -> wl <= width (nth j fs wf0) <= wh) /\
+  (forall j, (1 <= j < n)%nat -> ol <= offset (nth j fs wf0) <= oh).
+Definition same_vevs (gs fs : list wfield) : Prop :=
+  length gs = length fs /\ forall j, (j < length fs)%nat ->
+    vevLow (nth j gs wf0) = vevLow (nth j fs wf0) /\
+    vevHigh (nth j gs wf0) = vevHigh (nth j fs wf0).
+
+Let idxs := map t_idx T.
+Let d3 : triple := (0%nat, 0, 0).
+
+Lemma len_T : length T = n.
+Proof. exact (wf_relab_length _ _ HT). Qed.
+Lemma idx_nth j : (j < n)%nat -> nth j idxs 0%nat = t_idx (nth j T d3).
+Proof. intros Hj. unfold idxs. apply nth_map_in. now rewrite len_T. Qed.
+Lemma idx_lt j : (j < n)%nat -> (t_idx (nth j T d3) < n)%nat.
+Proof. intros Hj. apply (wf_relab_idx _ _ _ HT). apply nth_In. now rewrite len_T. Qed.
+Lemma idx_pos j : (j < n)%nat -> pos (t_idx (nth j T d3)) idxs = j.
+Proof.
+  intros Hj. rewrite <- idx_nth by exact Hj. apply pos_nth.
+  - exact (wf_relab_NoDup _ _ HT).
+  - unfold idxs. now rewrite map_length, len_T.
+Qed.
+Lemma idx_nonzero j : (1 <= j < n)%nat -> (1 <= t_idx (nth j T d3))%nat.
+Proof.
+  intros Hj. destruct (t_idx (nth j T d3)) eqn:E; [|lia]. exfalso.
+  assert (A : pos (t_idx (nth j T d3)) idxs = j) by (apply idx_pos; lia).
+  assert (B : pos (t_idx (nth 0 T d3)) idxs = 0%nat) by (apply idx_pos; lia).
+  unfold d3 in *. rewrite E in A. rewrite Hpin in B. lia.
+Qed.
+Lemma nth_relabel_rec fs j : (j < n)%nat ->
+  nth j (relabel T fs) wf0 =
+  relabel1 (t_sgn (nth j T d3)) (t_shift (nth j T d3)) (nth (t_idx (nth j T d3)) fs wf0).
+Proof.
+  intros Hj. unfold relabel. rewrite nth_map_in with (da := d3) by (now rewrite len_T).
+  reflexivity.
+Qed.
+
+Lemma feasible_relabel fs : feasible fs -> feasible (relabel T fs).
+Proof.
+  intros [L [O [W B]]]. split; [|split; [|split]].
+  - unfold relabel. now rewrite map_length, len_T.
+  - rewrite nth_relabel_rec by lia. cbn [offset relabel1]. unfold d3. now rewrite Hpin.
+  - intros j Hj. rewrite nth_relabel_rec by exact Hj. cbn [width relabel1]. apply W, idx_lt, Hj.
+  - intros j Hj. rewrite nth_relabel_rec by lia. cbn [offset relabel1]. apply B.
+    split; [apply idx_nonzero, Hj|apply idx_lt; lia].
+Qed.
+
+Definition pull_back (fs gs' : list wfield) : list wfield :=
+  map (fun i => mk_wfield (vevLow (nth i fs wf0)) (vevHigh (nth i fs wf0))
+                          (width (nth (pos i idxs) gs' wf0)) (offset (nth (pos i idxs) gs' wf0)))
+      (seq 0 n).
+Lemma nth_pull_back fs gs' i : (i < n)%nat ->
+  nth i (pull_back fs gs') wf0 =
+  mk_wfield (vevLow (nth i fs wf0)) (vevHigh (nth i fs wf0))
+            (width (nth (pos i idxs) gs' wf0)) (offset (nth (pos i idxs) gs' wf0)).
+Proof.
+  intros Hi. unfold pull_back. rewrite nth_map_in with (da := 0%nat) by (now rewrite seq_length).
+  now rewrite seq_nth by exact Hi.
+Qed.
+Lemma pos_lt i : (i < n)%nat -> (pos i idxs < n)%nat /\ nth (pos i idxs) idxs 0%nat = i.
+Proof.
+  intros Hi. destruct (nth_pos idxs i (wf_relab_In _ _ _ HT Hi)) as [A B].
+  unfold idxs in A at 2. rewrite map_length, len_T in A. split; assumption.
+Qed.
+
+Lemma pull_back_spec fs gs' : length fs = n -> feasible gs' -> same_vevs gs' (relabel T fs) ->
+  feasible (pull_back fs gs') /\ same_vevs (pull_back fs gs') fs /\
+  relabel T (pull_back fs gs') = gs'.
+Proof.
+  intros Lf [L [O [W B]]] [SL SV]. split; [|split].
+  - split; [|split; [|split]].
+    + unfold pull_back. now rewrite map_length, seq_length.
+    + rewrite nth_pull_back by lia. cbn [offset].
+      assert (E : pos 0 idxs = 0%nat).
+      { pose proof (idx_pos 0 ltac:(lia)) as E0. unfold d3 in E0. now rewrite Hpin in E0. }
+      now rewrite E.
+    + intros j Hj. rewrite nth_pull_back by exact Hj. cbn [width]. apply W, pos_lt, Hj.
+    + intros j Hj. rewrite nth_pull_back by lia. cbn [offset].
+      destruct (pos_lt j ltac:(lia)) as [A C]. apply B. split; [|exact A].
+      destruct (pos j idxs) eqn:E; [|lia]. exfalso.
+      rewrite idx_nth in C by lia. unfold d3 in C. rewrite Hpin in C. lia.
+  - split.
+    + unfold pull_back. now rewrite map_length, seq_length, Lf.
+    + intros j Hj. rewrite Lf in Hj. rewrite nth_pull_back by exact Hj. cbn [vevLow vevHigh]. auto.
+  - apply nth_ext with (d := wf0) (d' := wf0).
+    + unfold relabel. now rewrite map_length, len_T, L.
+    + intros j Hj. unfold relabel in Hj. rewrite map_length, len_T in Hj.
+      rewrite nth_relabel_rec by exact Hj.
+      rewrite nth_pull_back by (apply idx_lt, Hj). rewrite idx_pos by exact Hj.
+      assert (Hj' : (j < length (relabel T fs))%nat)
+        by (unfold relabel; now rewrite map_length, len_T).
+      destruct (SV j Hj') as [E1 E2]. rewrite nth_relabel_rec in E1, E2 by exact Hj.
+      cbn [vevLow vevHigh relabel1] in E1, E2. unfold relabel1. cbn [vevLow vevHigh width offset].
+      rewrite <- E1, <- E2. destruct (nth j gs' wf0). reflexivity.
+Qed.
+
+Lemma same_pin_full fs : feasible fs ->
+  feasible (relabel T fs) /\
+  ((forall gs, feasible gs -> same_vevs gs fs -> action_model Vint fs <= action_model Vint gs) ->
+   forall gs', feasible gs' -> same_vevs gs' (relabel T fs) ->
+     action_model Vint' (relabel T fs) <= action_model Vint' gs').
+Proof.
+  intros F. split; [exact (feasible_relabel fs F)|]. intros Hmin gs' F' S'.
+  destruct F as [Lf Frest].
+  destruct (pull_back_spec fs gs' Lf F' S') as [Fg [Sg Eg]].
+  rewrite <- Eg.
+  rewrite (action_covariant_full Vint Vint' T Vcov fs) by (now rewrite Lf).
+  rewrite (action_covariant_full Vint Vint' T Vcov (pull_back fs gs'))
+    by (destruct Fg as [Lg _]; now rewrite Lg).
+  apply Hmin; [exact Fg|exact Sg].
+Qed.
+End SamePin.
+
+(** pinned offset and WallParams arithmetic *)
+Lemma relax_and_arith :
+  (forall m, relax_params m 0 0 = 0) /\
+  (forall m x, relax_params m x x = x) /\
+  (forall m x y, relax_params m x y = m * x + (1 - m) * y) /\
+  (forall aw ao bw bo, WallParams_add_widths aw ao bw bo = aw + bw /\
+                       WallParams_add_offsets aw ao bw bo = ao + bo /\
+                       WallParams_sub_widths aw ao bw bo = aw - bw /\
+                       WallParams_sub_offsets aw ao bw bo = ao - bo) /\
+  (forall aw ao k, WallParams_mul_widths aw ao k = aw * k /\
+                   WallParams_mul_offsets aw ao k = ao * k /\
+                   WallParams_div_widths aw ao k = aw / k /\
+                   WallParams_div_offsets aw ao k = ao / k).
+Proof.
+  unfold relax_params, WallParams_add_widths, WallParams_add_offsets, WallParams_sub_widths,
+    WallParams_sub_offsets, WallParams_mul_widths, WallParams_mul_offsets,
+    WallParams_div_widths, WallParams_div_offsets, Rdiv.
+  repeat split; intros; ring.
+Qed.
+
 (** =================================================================================== *)
 (** ** The obligations *)
 
@@ -458,6 +613,48 @@ Example clip_lower_side_outside_bounds :
   let b := mk_bcfg (1 / 10) 100 (-10) 10 100 in
   clip_offsets b (-20) = -11 /\ clip_offsets b (-20) < offLo b /\ clip_offsets b 20 = 9.
 Proof. cbn [offLo offHi]. unfold clip_offsets. cbn [offLo offHi]. repeat split; minmax. Qed.
+
+(** the minimisation problem for a relabelling that keeps the pinned field first is the old
+    problem: feasible sets and objective values correspond one to one, hence a minimiser of
+    the old problem is carried to a minimiser of the new one (widths and offsets permuted
+    along with the fields; exact, no z-translation involved) *)
+Theorem objective_covariant_same_pin :
+  forall (Vint Vint' : (R -> list R) -> R) (T : list triple) (n : nat),
+  (1 <= n)%nat -> wf_relab n T -> t_idx (nth 0 T (0%nat, 0, 0)) = 0%nat ->
+  (forall prof prof' : R -> list R,
+     (forall z, prof' z = relabel_point T (prof z)) -> Vint' prof' = Vint prof) ->
+  forall wl wh ol oh fs, feasible n wl wh ol oh fs ->
+  feasible n wl wh ol oh (relabel T fs) /\
+  ((forall gs, feasible n wl wh ol oh gs -> same_vevs gs fs ->
+      action_model Vint fs <= action_model Vint gs) ->
+   forall gs', feasible n wl wh ol oh gs' -> same_vevs gs' (relabel T fs) ->
+     action_model Vint' (relabel T fs) <= action_model Vint' gs').
+Proof. exact same_pin_full. Qed.
+Print Assumptions objective_covariant_same_pin.
+Example feasible_example :
+  feasible 2 (1 / 1000) 1 (-10) 10 [mk_wfield 0 160 (1 / 20) 0; mk_wfield 94 0 (1 / 25) (2 / 3)].
+Proof.
+  split; [reflexivity|]. split; [reflexivity|]. split.
+  - intros j Hj. destruct j as [|[|j]]; cbn; try lra. lia.
+  - intros j Hj. destruct j as [|[|j]]; cbn; try lra; lia.
+Qed.
+
+(** relaxation towards the minimiser's answer and WallParams arithmetic act on widths and
+    offsets separately and componentwise: the pinned offset stays 0 *)
+Theorem relaxation_keeps_pin :
+  (forall m, relax_params m 0 0 = 0) /\
+  (forall m x, relax_params m x x = x) /\
+  (forall m x y, relax_params m x y = m * x + (1 - m) * y) /\
+  (forall aw ao bw bo, WallParams_add_widths aw ao bw bo = aw + bw /\
+                       WallParams_add_offsets aw ao bw bo = ao + bo /\
+                       WallParams_sub_widths aw ao bw bo = aw - bw /\
+                       WallParams_sub_offsets aw ao bw bo = ao - bo) /\
+  (forall aw ao k, WallParams_mul_widths aw ao k = aw * k /\
+                   WallParams_mul_offsets aw ao k = ao * k /\
+                   WallParams_div_widths aw ao k = aw / k /\
+                   WallParams_div_offsets aw ao k = ao / k).
+Proof. exact relax_and_arith. Qed.
+Print Assumptions relaxation_keeps_pin.
 
 (** Fields helpers commute with a permutation of the columns (= relabelling of fields) *)
 Theorem fields_axes : forall (A : Type) (d : A) (p : list nat) (M lo hi : list (list A)),
